@@ -314,8 +314,10 @@ fn oracle_params(ctx: &mut Ctx, tl: &Tol, class: &str, strict_pd: bool, x: &Arra
         // below the resolution of the scalar type, e.g. reg 1e-6 in f32.)
         if strict_pd && (reg == 0.0 || lm < 0.5 * reg - tl.pd_abs * scale) && lm <= 64.0 * tl.eps * scale && lm >= -tl.pd_abs * scale {
             // the support of the component: the distinct records it is responsible for (membership >= 1e-6).
-            // With at most d of them the exact covariance is singular (the listed finding); a singular
-            // covariance on a larger support is something else and is reported under its own class.
+            // With at most d of them the exact covariance is singular (the listed finding); on a larger support
+            // the exact covariance is positive definite, and the stored matrix is judged as it stands: singular
+            // only if its smallest eigenvalue (Jacobi in f64) is within 64 eps(f64) of zero - an f32 covariance
+            // of condition number 1e5 is positive definite, not singular.
             let support = resp.map(|r| {
                 let mut rows: Vec<Vec<u64>> = (0..n).filter(|i| r[[*i, j]] >= 1e-6).map(|i| x.row(i).iter().map(|v| v.to_bits()).collect()).collect();
                 rows.sort();
@@ -330,7 +332,9 @@ fn oracle_params(ctx: &mut Ctx, tl: &Tol, class: &str, strict_pd: bool, x: &Arra
             if sup == "le_d" && reg == 0.0 {
                 masked += 1;
             }
+            if !(sup == "gt_d" && lm > 64.0 * f64::EPSILON * scale) {
             ctx.fail("cov_pd_singular", &format!("{}:support={}", class, sup), format!("fit returned a covariance that is singular to working precision: component {} smallest eigenvalue {:e}, largest entry {:e}, reg {:e}, supported on {:?} distinct records (d = {}); data {:?}", j, lm, scale, reg, support, d, if x.len() <= 36 { x.rows().into_iter().map(|r| r.to_vec()).collect::<Vec<_>>() } else { vec![] }));
+            }
         }
         if let Some(p) = prec {
             let pj = p.index_axis(Axis(0), j).to_owned();
@@ -816,7 +820,12 @@ fn far_queries<F: Sc>(rng: &mut Rng, g: &Gmm<F>, x: &Array2<f64>, nq_near: usize
     (Array2::from_shape_fn((n, d), |(i, j)| F::n(rows[i][j])), far)
 }
 
-fn one_instance<F: Sc>(em: &mut Em, rng: &mut Rng, big: bool) {
+/// returns (fits reported under the open finding `cov_pd_singular` with a degenerate support, rank-deficient data sets)
+fn one_instance<F: Sc>(em: &mut Em, rng: &mut Rng, big: bool) -> (usize, usize) {
+    let out = one_instance_inner::<F>(em, rng, big);
+    out
+}
+fn one_instance_inner<F: Sc>(em: &mut Em, rng: &mut Rng, big: bool) -> (usize, usize) {
     let d = 1 + rng.below(6);
     let k = 1 + rng.below(if big { 6 } else { 4 });
     let per = if big { 10 + rng.below(30) } else { 6 + rng.below(12) };
@@ -914,6 +923,7 @@ fn one_instance<F: Sc>(em: &mut Em, rng: &mut Rng, big: bool) {
     if masked > 0 {
         em.count(&format!("masked{}:cov_pd_singular", t));
     }
+    let tally = (if masked > 0 { 1 } else { 0 }, if rank_def { 1 } else { 0 });
     if cfg.reg == 0.0 {
         em.count(&format!("fits{}:reg=0", t));
     }
@@ -1003,10 +1013,10 @@ fn one_instance<F: Sc>(em: &mut Em, rng: &mut Rng, big: bool) {
     }
     let g = match res {
         Ok(Ok(g)) => g,
-        _ => return,
+        _ => return tally,
     };
     if !(all_finite(w1(g.weights()).iter()) && all_finite(w2(g.means()).iter()) && all_finite(w3(hk::precisions_chol_g(&g)).iter())) {
-        return;
+        return tally;
     }
     // ---- the returned parameters are the M-step of the accepted step's responsibilities, with the configured reg
     if let (Some(ch), Some(i)) = (&chain, accepted) {
@@ -1040,6 +1050,7 @@ fn one_instance<F: Sc>(em: &mut Em, rng: &mut Rng, big: bool) {
     let (qs, far) = far_queries(rng, &g, &xw, 6);
     let form = rng.below(6);
     proba_lines(em, &g, &qs, &far, form);
+    tally
 }
 
 /// near queries in one request, every far query in its own (a far query between two nearly
@@ -1307,14 +1318,27 @@ fn extreme_instance<F: Sc>(em: &mut Em, rng: &mut Rng) {
 }
 
 pub fn run(em: &mut Em, rng: &mut Rng) {
-    let (fits, msteps, synth) = if em.thorough() { (4000, 5000, 2000) } else { (420, 800, 300) };
+    let (fits, msteps, synth) = if em.thorough() { (4000, 5000, 2000) } else { (800, 800, 300) };
     let deep = em.thorough();
+    let (mut masked, mut rank_def) = (0usize, 0usize);
     for i in 0..fits {
-        one_instance::<f64>(em, rng, deep && i % 4 == 0);
+        let (m, r) = one_instance::<f64>(em, rng, deep && i % 4 == 0);
+        masked += m;
+        rank_def += r;
     }
-    for i in 0..fits / 4 {
-        one_instance::<f32>(em, rng, deep && i % 4 == 0);
+    for i in 0..fits / 2 {
+        let (m, r) = one_instance::<f32>(em, rng, deep && i % 4 == 0);
+        masked += m;
+        rank_def += r;
     }
+    // ceiling on the open-finding mask: the listed finding (singular covariance on a degenerate support,
+    // reg = 0) is reached by a small share of the rank-deficient data sets (unchanged tree: 1-3 of ~30 per
+    // quick run); a run in which it absorbs more than 6 + half their number is a regression hiding behind it
+    let cap = 6 + rank_def / 2;
+    em.case(format!("#ceiling masked_cov_pd_singular={} rank_deficient={} cap={}", masked, rank_def, cap), |ctx| {
+        ctx.require(masked <= cap, "mask_ceiling", "cov_pd_singular", || format!("{} fits were reported under the open finding C10-singular-covariance-accepted; the ceiling for this run is {} (6 + half of the {} rank-deficient data sets)", masked, cap, rank_def));
+        "ok".to_string()
+    });
     for _ in 0..msteps {
         mstep_synthetic::<f64>(em, rng);
     }
